@@ -153,7 +153,7 @@ func (rl *Shell) Printf(msg string, args ...any) (n int, err error) {
 
 	// Redisplay the prompt, input line and active helpers.
 	core.YieldPoint("printf.beforerefresh")
-	rl.Prompt.PrimaryPrint()
+	rl.Display.PrintPrimaryPrompt()
 	rl.Display.Refresh()
 
 	return
@@ -175,7 +175,7 @@ func (rl *Shell) PrintTransientf(msg string, args ...any) (n int, err error) {
 
 	// Redisplay the prompt, input line and active helpers.
 	core.YieldPoint("printf.beforerefresh")
-	rl.Prompt.PrimaryPrint()
+	rl.Display.PrintPrimaryPrompt()
 	rl.Display.Refresh()
 
 	return
